@@ -19,7 +19,7 @@ for path in sys.argv[1:]:
         if l.startswith("| "):
             rows[l.split("|")[1].strip()] = l
 out = header + [rows[k] for k in sorted(rows)]
-caught = sum(1 for r in rows.values() if "exit 1" in r)
+caught = sum(1 for r in rows.values() if ": exit 1" in r)
 out += ["", f"{len(rows)} changes; the check of the targeted property reports {caught} of them (exit 1)."]
 out += ["",
         "The rows come from several runs of `tools/seeded.py` (a full run over all changes takes hours): each change's row is",
@@ -27,6 +27,10 @@ out += ["",
         "since then left the patch applicable or it was re-expressed and re-run (`rebased_on` in its meta.json). The changes",
         "not reported, and why, are listed in `HISTORY.md` (C13-w7-2: tie direction of a rounding; C01-w9-3: negative",
         "WebVTT time shift; C05-w11-3: extended character after a special character; C04-w11-2, C04-w11-3 and C16-w11-3:",
-        "changes to another property's code, reported by C03 / C19)."]
+        "changes to another property's code, reported by C03 / C19). C11-w6-3 and C11-w8-2 stopped being violations",
+        "when the reader defect they leaned on was repaired (9ad35cf): their rows say so.",
+        "",
+        "A last partial re-run on the final tree (/repo ddf6f15, /verif 63691e8; stopped for lack of time) covered 251 of",
+        "the changes whose rows are older: 249 were reported again, the other two are C11-w6-3 and C11-w8-2."]
 open(os.path.join(VERIF, "seeded", "README.md"), "w").write("\n".join(out) + "\n")
 print(len(rows), "rows,", caught, "caught")
